@@ -14,7 +14,7 @@ not understand raises TranslateError: the agreement proof then fails loudly.
 
 Understood bodies: boolean expressions over self.begin / self.end / reftextsel.begin /
 reftextsel.end / *limit / WHITESPACE_LIMIT / integer literals with && || ! == != < <= > >= and
-binary minus, `self == reftextsel`, `if c { .. } else if .. else { .. }`, one `let x = e;` per block,
+binary minus and plus, `self == reftextsel`, `if c { .. } else if .. else { .. }`, one `let x = e;` per block,
 the whitespace test of the gap (text_by_offset + chars().all(is_whitespace)), and the negation arm
 `!self.test(&operator.toggle_negate(), reftextsel, resource)`."""
 import re
@@ -72,7 +72,7 @@ def parse_pattern(p):
     return "mkpp %s %s %s %s" % (name, allv, neg, lim), binds
 
 
-TOKEN_RE = re.compile(r"\s*(TEXTWS|TOGGLE|TSEQ|IFFOLD|SOMEEQ|LEFTB|RIGHTE|\|\||&&|>=|<=|==|!=|[<>!(){};,=*-]|[A-Za-z_][\w.]*|\d+)")
+TOKEN_RE = re.compile(r"\s*(TEXTWS|TOGGLE|TSEQ|IFFOLD|SOMEEQ|LEFTB|RIGHTE|\|\||&&|>=|<=|==|!=|[<>!(){};,=*+-]|[A-Za-z_][\w.]*|\d+)")
 
 
 def tokenize(s):
@@ -181,10 +181,10 @@ class P:
 
     def arith(self):
         a = self.atom()
-        while self.peek() == "-":
-            self.eat()
+        while self.peek() in ("-", "+"):
+            op = self.eat()
             b = self.atom()
-            a = ("n", "(NSub %s %s)" % (self.num(a), self.num(b)))
+            a = ("n", "(%s %s %s)" % ("NSub" if op == "-" else "NAdd", self.num(a), self.num(b)))
         return a
 
     def atom(self):
